@@ -348,7 +348,7 @@ async def stored_messages(part, r, backend, n):
         c = await run.connect(2)
         k = 0
         for _ in range(n):
-            msg = c07.hostile_message(r) if r.random() < 0.8 else deep_message(r)
+            msg = c07.hostile_message(r) if r.random() < 0.7 else deep_message(r)
             cmds = [b'APPEND INBOX {%d+}\r\n' % len(msg) + msg]
             cmds += [b'FETCH * (' + a + b')' for a in c07.FETCH_ATTRS] + [b'FETCH * FULL', b'UID FETCH * (BODY.PEEK[1.1] BODY.PEEK[2.HEADER] BODY.PEEK[1.TEXT]<2.3>)']
             cmds += [b'SEARCH ' + key for key in (b'TEXT "x"', b'BODY "x"', b'SENTSINCE 1-Jan-2020', b'SENTBEFORE 1-Jan-2020', b'FROM "a"', b'TO "b"', b'CC "c"', b'BCC "d"', b'SUBJECT "e"',
@@ -372,15 +372,52 @@ async def stored_messages(part, r, backend, n):
             backends.rmtree(run.base)
 
 
+STRUCTURED = [b'Subject', b'From', b'To', b'Cc', b'Date', b'Message-Id', b'References', b'In-Reply-To', b'Content-Type', b'Content-Disposition', b'Content-Transfer-Encoding']
+
+
+async def header_sweep(part, r, backend, share, nshares):
+    """every hostile header value in every header the server gives a structure to — systematically, not by chance"""
+    run = Runner(part, r, backend)
+    await run.start()
+    try:
+        c = await run.connect(2)
+        k = 0
+        for vi, v in enumerate(c07.HEADER_VALUES):
+            if vi % nshares != share:
+                continue
+            for eol in (b'\r\n',):
+                msg = b''.join(h + b': ' + v + eol for h in STRUCTURED) + eol + b'body' + eol
+                for body in (b'APPEND INBOX {%d+}\r\n' % len(msg) + msg, b'FETCH * (ENVELOPE BODYSTRUCTURE)', b'SEARCH SUBJECT x FROM y HEADER References z SENTSINCE 1-Jan-2020',
+                             b'FETCH * (BODY.PEEK[HEADER.FIELDS (Subject From)] THREADID)', b'STORE * +FLAGS (\\Deleted)', b'EXPUNGE'):
+                    if c.task.done():
+                        await c.finish()
+                        c = await run.connect(2)
+                    k += 1
+                    if not await run.line(c, 2, b'h%d' % k, body, 'header-sweep:' + body.split(b' ')[0].decode()):
+                        try:
+                            await c.finish()
+                        except Exception:
+                            pass
+                        c = await run.connect(2)
+        await c.eof()
+    finally:
+        if run.base:
+            backends.rmtree(run.base)
+
+
 def deep_message(r):
-    depth = r.choice([5, 30, 120])
-    if r.random() < 0.5:
+    depth = r.choice([5, 30, 120, 400, 1200])
+    x = r.random()
+    if x < 0.3:
         m = b'Subject: ' + b'Re: ' * depth + b'x\r\n\r\nbody\r\n'
         return m
     m = b'A: b\r\n\r\nleaf\r\n'
     for d in range(depth):
-        b = b'b%d' % d
-        m = b'Content-Type: multipart/mixed; boundary=' + b + b'\r\n\r\n--' + b + b'\r\n' + m + b'\r\n--' + b + b'--\r\n'
+        if x < 0.6 or (x < 0.8 and d % 2):
+            m = b'Content-Type: message/rfc822\r\n\r\n' + m
+        else:
+            b = b'b%d' % d
+            m = b'Content-Type: multipart/mixed; boundary=' + b + b'\r\n\r\n--' + b + b'\r\n' + m + b'\r\n--' + b + b'--\r\n'
     return m
 
 
@@ -566,10 +603,19 @@ def multi_session(part, r, n):
 def worker(job):
     import logging
     logging.disable(logging.CRITICAL)          # pymap logs handled exceptions of the sieve listener
-    seed, nlines, nmsgs, nseq = job
+    seed, nlines, nmsgs, nseq = job[:4]
+    share, nshares = job[4:6] if len(job) > 4 else (0, 1)
     r = random.Random(seed)
     part = Part()
     signal.signal(signal.SIGALRM, _alarm)
+    for backend in ('dict', 'maildir'):
+        try:
+            asyncio.run(header_sweep(part, r, backend, share, nshares))
+        except Hang:
+            pass
+        except Exception as exc:   # noqa
+            part.violation('monitor', f'C06 header sweep ({backend}): {type(exc).__name__}: {exc}', dict(seed=seed, traceback=traceback.format_exc()[-1200:]),
+                           signature=f'exception:{type(exc).__name__}')
     for backend in (['dict', 'maildir'] if seed % 2 == 0 else ['dict']):
         try:
             asyncio.run(fuzz_lines(part, r, backend, nlines if backend == 'dict' else nlines // 3))
@@ -605,7 +651,7 @@ def run(ctx):
                            'a synchronous spin is detected by SIGALRM in the harness process; the same watchdog bounds every line to 3 s',
                            '"* BAD" is accepted as the answer to a line from which no tag can be read']
     nw = ctx.workers
-    ctx.pmap(worker, [(ctx.seed * 1000 + 20 + k, ctx.budget(150, 2500), ctx.budget(4, 60), ctx.budget(8, 100)) for k in range(nw)])
+    ctx.pmap(worker, [(ctx.seed * 1000 + 20 + k, ctx.budget(150, 2500), ctx.budget(4, 60), ctx.budget(8, 100), k, nw) for k in range(nw)])
 
 
 def replay(case):
